@@ -164,6 +164,17 @@ func (w *World) isLibFunc(fn *ssa.Function) bool {
 	return true
 }
 
+// isHarnessGlobal: a package-level variable declared in a harness file (zz_verif_*.go) or verifrt.
+func (w *World) isHarnessGlobal(g *ssa.Global) bool {
+	if g.Pkg != nil && strings.HasSuffix(g.Pkg.Pkg.Path(), "/verifrt") {
+		return true
+	}
+	if g.Pos().IsValid() {
+		return strings.HasPrefix(filepath.Base(w.fset.Position(g.Pos()).Filename), "zz_verif")
+	}
+	return false
+}
+
 func namedOf(t types.Type) *types.Named {
 	if p, ok := t.(*types.Pointer); ok {
 		t = p.Elem()
